@@ -58,7 +58,7 @@ def main():
         with ThreadPoolExecutor(max_workers=9) as ex:
             res = list(ex.map(one, PIDS))
     finally:
-        sh("git -C /repo checkout -- .")
+        sh("git -C /repo checkout -- . && git -C /repo clean -fdq -- pyscsi tools examples")      # (new files of the change are untracked: removed too)
     rc, out = sh("git -C /repo status --porcelain")
     assert out.strip() == "", "repo not restored: " + out
     result["checks"] = {pid: {"exit": r, "rules": rules, "first": first} for pid, r, rules, first in res}
